@@ -2,13 +2,13 @@
 from vx.unit import Unit
 from vx.extract import C
 
-PROPS = ['C08', 'C01']
+PROPS = ['C08', 'C04', 'C01']
 HEADER = 'use vstd::prelude::*;\nverus! {\n'
 FOOTER = '\n} // verus!\nfn main() {}\n'
 
 
 def build(repo, findings):
-    u = Unit('U10b', 'regex fix-up pass: exactly the unescaped `[` inside a bracket expression (not opening `[:`) are escaped', repo, ['C08'], safety_props=['C01', 'C08'])
+    u = Unit('U10b', 'regex fix-up pass: exactly the unescaped `[` inside a bracket expression (not opening `[:`) are escaped', repo, ['C08', 'C04'], safety_props=['C01', 'C08'])
     src = u.source('brush-core/src/regex.rs')
     u.raw(HEADER)
     u.prelude('std/utf8.rs')
@@ -17,15 +17,15 @@ def build(repo, findings):
     f = src.slice('add_missing_escape_chars_to_regex', r'^\s*let mut in_escape = false;', r'^\s*while let Some\(\(byte_offset, c\)\) = peekable\.next\(\) \{',
                   'fn scan_brackets(s: &str) -> Vec<usize>', fn, tail='insertion_positions')
     f.r1().r20()
-    f.sig(fn, ret='r', ensures=[C('C08 positions-of-the-brackets-to-escape', 'r@ == escape_positions(s@, s@.len() as int)')])
+    f.sig(fn, ret='r', ensures=[C('C08,C04 positions-of-the-brackets-to-escape', 'r@ == escape_positions(s@, s@.len() as int)')])
     f.ascribe(r'^\s*let mut insertion_positions = vec!\[\];', 'Vec<usize>', fn_name=fn)
     f.before_loop(fn, 0, 'proof { axiom_str_fits_usize(s); assert(s@.take(0) =~= Seq::<char>::empty()); }')
     f.loop(0, fn_name=fn, invariant=[
         C('aux', '__cs@ == s@ && __i <= __cs@.len() && byte_len(s@) <= isize::MAX'),
         C('aux byte-offset-of-the-next-character', '__off == byte_len(s@.take(__i as int))'),
-        C('C08 escape-state', 'in_escape == esc(s@, __i as int)'),
-        C('C08 bracket-state', 'in_brackets == in_br(s@, __i as int)'),
-        C('C08 positions-so-far', 'insertion_positions@ == escape_positions(s@, __i as int)'),
+        C('C08,C04 escape-state', 'in_escape == esc(s@, __i as int)'),
+        C('C08,C04 bracket-state-an-escaped-bracket-of-quoted-text-opens-nothing', 'in_brackets == in_br(s@, __i as int)'),
+        C('C08,C04 positions-so-far', 'insertion_positions@ == escape_positions(s@, __i as int)'),
     ], decreases='__cs@.len() - __i', body_first='''let ghost i0 = __i as int;
 proof {
     lemma_byte_len_take(s@, i0, i0 + 1);
